@@ -218,7 +218,7 @@ pub fn spec_dec_dk(dk: &[[u8; 16]; 10], b: &[u8; 16]) -> [u8; 16] {
 }
 
 // With dk = spec_inv_keys(K) this is the standard's D (4.4.2) under K, for every K and block: additivity of L^-1, 8 times.
-// @ob name=l_dec_dk_is_standard props=C07 kind=lemma fn=bcref::kuznyechik::decrypt_with uses=l_linv_additive timeout=600
+// @ob name=l_dec_dk_is_standard props=C07 kind=lemma fn=bcref::kuznyechik::decrypt_with uses=l_linv_additive timeout=900
 #[kani::proof]
 #[kani::stub(bcref::kuznyechik::l_inv, auf::f)]
 #[kani::unwind(53)]
@@ -356,7 +356,7 @@ pub fn uf_x_linv_sinv(k: &[u8; 16], a: &[u8; 16]) -> [u8; 16] { ipuf::bwd(&kz::x
 // D_K(E_K(a)) = a and E_K(D_K(a)) = a for every ten round keys, for every inverse pair (LS, (LS)^-1).
 // Together with the conformance obligations of a backend (encrypt_block = E, decrypt_block = D on well-formed key
 // material) this is C01 for that backend.
-// @ob name=l_ref_roundtrip props=C01 kind=lemma fn=bcref::kuznyechik::encrypt_with,bcref::kuznyechik::decrypt_with uses=l_ls_inverse timeout=300
+// @ob name=l_ref_roundtrip props=C01 kind=lemma fn=bcref::kuznyechik::encrypt_with,bcref::kuznyechik::decrypt_with uses=l_ls_inverse timeout=900
 #[kani::proof]
 #[kani::stub(bcref::kuznyechik::lsx, uf_lsx)]
 #[kani::stub(bcref::kuznyechik::x_linv_sinv, uf_x_linv_sinv)]
@@ -366,7 +366,7 @@ fn l_ref_roundtrip() {
     let a = any_block();
     assert!(kz::eq(&kz::decrypt_with(&k, &kz::encrypt_with(&k, &a)), &a));
 }
-// @ob name=l_ref_roundtrip_rev props=C01 kind=lemma fn=bcref::kuznyechik::encrypt_with,bcref::kuznyechik::decrypt_with uses=l_ls_inverse timeout=300
+// @ob name=l_ref_roundtrip_rev props=C01 kind=lemma fn=bcref::kuznyechik::encrypt_with,bcref::kuznyechik::decrypt_with uses=l_ls_inverse timeout=900
 #[kani::proof]
 #[kani::stub(bcref::kuznyechik::lsx, uf_lsx)]
 #[kani::stub(bcref::kuznyechik::x_linv_sinv, uf_x_linv_sinv)]
